@@ -39,6 +39,21 @@ pub unsafe fn k_realloc(p: *mut u8, l: Layout, new_size: usize) -> *mut u8 {
     __rust_realloc(p, l.size(), l.align(), new_size)
 }
 
+/// `Vec` growth goes through the private `alloc::alloc::realloc_nonnull` in this toolchain's std
+/// (not through the public `realloc`), so that one is stubbed as well.
+#[cfg(kani)]
+pub unsafe fn k_realloc_nn(p: std::ptr::NonNull<u8>, l: Layout, new_size: usize) -> *mut u8 {
+    assert!(!IN_RT, "C09.realloc[base]");
+    __rust_realloc(p.as_ptr(), l.size(), l.align(), new_size)
+}
+
+/// likewise `Global::deallocate` goes through the private `dealloc_nonnull`
+#[cfg(kani)]
+pub unsafe fn k_dealloc_nn(p: std::ptr::NonNull<u8>, l: Layout) {
+    assert!(!IN_RT, "C09.dealloc[base]");
+    __rust_dealloc(p.as_ptr(), l.size(), l.align())
+}
+
 #[cfg(not(kani))]
 pub mod native {
     use std::alloc::{GlobalAlloc, Layout, System};
